@@ -73,6 +73,14 @@ CATALOGUE = {
          "        if (contents_[i].get()->length() == length_) {\n          maybeupdate((int64_t)i, contents_[i].get()->null());\n        }\n        if (contents_[i].get()->length() != length_ + 1) {",
          "        if (contents_[i].get()->length() > length_ + 1) {",
          "a record that does not set every field no longer gets None for the missing ones: fields of different lengths"),
+        ("lb-record-last-field-misrouted", L + "layoutbuilder/RecordArrayBuilder.cpp",
+         "    int64_t out = field_index_;\n    field_index_ = (field_index_ < contents_size_ - 1) ? field_index_ + 1 : 0;\n    return out;",
+         "    return (field_index_ < contents_size_ - 1) ? field_index_++ : (field_index_ = 0);",
+         "LayoutBuilder: the values of a record's last field are routed to field 0 (only strings notice)"),
+        ("lb-regular-word-takes-one-item", L + "layoutbuilder/RegularArrayBuilder.cpp",
+         "    for (int64_t i = 1;  i < form_.get()->size();  i++) {",
+         "    for (int64_t i = 2;  i < form_.get()->size();  i++) {",
+         "LayoutBuilder: a regular item of size n takes n - 1 content items"),
         ("endlist-wrong-offset", L + "builder/ListBuilder.cpp",
          "      offsets_.append(content_.get()->length());\n      begun_ = false;\n    }\n    else {\n      maybeupdate(content_.get()->endlist());",
          "      offsets_.append(content_.get()->length());\n    }\n    else {\n      maybeupdate(content_.get()->endlist());",
